@@ -48,6 +48,11 @@ pub fn antichain_groups<'a>(prog: &Prog, top: Kind, r: &'a RefRun, rng: &mut Rng
 pub fn concurrent_groups_keyed<'a>(prog: &Prog, top: Kind, r: &'a RefRun) -> Vec<(Vec<u32>, Vec<Vec<&'a RefEv>>)> {
     let mut groups: BTreeMap<(Vec<u32>, u32), BTreeMap<u32, Vec<&RefEv>>> = BTreeMap::new();
     for e in r.events.iter() {
+        // the evaluation of an operand expression has no prescribed position inside its branch (`??` evaluates its operand before
+        // the receiver chain): it neither waits nor is waited for
+        if prog.ev(e.ev).map(|m| m.kind == crate::prog::EvKind::Mk).unwrap_or(false) {
+            continue;
+        }
         let mut key: Vec<u32> = Vec::new();
         for (l, t) in e.tag.iter().enumerate() {
             key.push(t.inv);
